@@ -38,6 +38,65 @@ package dtlshandshake
 //@ ensures successor-of-current: result1 == nil ==> sameSlice(argBytes("deriveNextApplicationTrafficSecret", 1), current.Secret)
 //@ ensures protection-from-secret: result1 == nil ==> ncalls("NewRecordProtection") == 1 && retErr("NewRecordProtection", 1) == nil
 //@    && sameRef(result0.Protection, retAs("NewRecordProtection", 0, result0.Protection)) && sameSlice(argBytes("NewRecordProtection", 1), result0.Secret)
-//@ ensures current-unchanged: current.Epoch == old(current.Epoch) && current.Generation == old(current.Generation) && sameSlice(current.Secret, old(current.Secret))
+//@ ensures current-unchanged: current.Epoch == old(current.Epoch) && current.Generation == old(current.Generation)
+//@ ensures current-secret-unchanged: bytesEq(current.Secret, old(current.Secret))
+//@ ensures dbg-secret-hdr: sameSlice(current.Secret, old(current.Secret))
 //@ ensures fresh-object: result1 == nil ==> result0 != current
+//@ end
+
+// UpdateKeys reports success only after the peer acknowledged the KeyUpdate AND the pending write
+// generation was committed: the flight's completion receives nil only if there was nothing to
+// commit or the commit callback returned nil; the commit is attempted at most once, with the
+// flight's pending generation; the flight is removed in every case.
+
+//@ define FL(p, id) p.flights[id]
+
+// The completion's signal is a context.CancelFunc: it only wakes the waiter.
+//@ assume-pure postHandshakeCompletion.signal
+
+//@ func postHandshakeCompletion.complete
+//@ noinline
+//@ end
+
+//@ func postHandshake.completePostHandshakeFlight
+//@ watch CommitLocalKeyUpdate postHandshakeCompletion.complete
+//@ requires args: p != nil
+//@ requires conn-impl: typeIs(conn, "github.com/pion/dtls/v3.handshakeConn")
+//@ requires flights-real: forallKey(p.flights, func(k postHandshakeFlightID) bool { return allocated(p.flights[k]) })
+//@ ensures unknown-flight-ignored: old(FL(p, id)) == nil ==> result == nil && !called("postHandshakeCompletion.complete") && !called("CommitLocalKeyUpdate")
+//@ ensures completed-once: old(FL(p, id)) != nil ==> ncalls("postHandshakeCompletion.complete") == 1
+//@    && argAs("postHandshakeCompletion.complete", 0, p.flights[id].Completion) == old(FL(p, id).Completion)
+//@ ensures completion-gets-result: old(FL(p, id)) != nil ==> sameRef(argErr("postHandshakeCompletion.complete", 1), result)
+//@ ensures success-needs-commit: old(FL(p, id)) != nil && isNil(argErr("postHandshakeCompletion.complete", 1))
+//@    ==> old(FL(p, id).PendingWrite) == nil || (called("CommitLocalKeyUpdate") && isNil(retErr("CommitLocalKeyUpdate", 0)))
+//@ ensures commit-at-most-once: ncalls("CommitLocalKeyUpdate") <= 1
+//@ ensures commit-only-pending: called("CommitLocalKeyUpdate") ==> old(FL(p, id)) != nil && old(FL(p, id).PendingWrite) != nil
+//@ ensures commit-the-pending: called("CommitLocalKeyUpdate") ==> argAs("CommitLocalKeyUpdate", 1, p.flights[id].PendingWrite) == old(FL(p, id).PendingWrite)
+//@ ensures commit-before-completion: called("CommitLocalKeyUpdate") ==> calledBefore("CommitLocalKeyUpdate", "postHandshakeCompletion.complete")
+//@ ensures commit-error-propagates: called("CommitLocalKeyUpdate") ==> sameRef(result, retErr("CommitLocalKeyUpdate", 0))
+//@ ensures no-commit-no-error: old(FL(p, id)) != nil && old(FL(p, id).PendingWrite) == nil ==> result == nil && !called("CommitLocalKeyUpdate")
+//@ ensures flight-removed: !hasKey(p.flights, id)
+//@ ensures other-flights-kept: forallKey(p.flights, func(k postHandshakeFlightID) bool { return old(hasKey(p.flights, k)) && p.flights[k] == old(p.flights[k]) })
+//@ end
+
+// applyACK reports a flight as completed only when none of its fragments is still pending.
+// FLIGHTS(p): every registered flight is a real object stored under its own ID.
+
+//@ define FLIGHTS(p) forallKey(p.flights, func(k postHandshakeFlightID) bool { return allocated(p.flights[k]) && p.flights[k].ID == k })
+//@ define DONE(p, id) (hasKey(p.flights, id) && len(p.flights[id].PendingFragments) == 0)
+
+//@ func postHandshake.applyACK
+//@ requires args: p != nil
+//@ requires flights: FLIGHTS(p)
+//@ ensures only-fully-acked: forall(0, len(result), func(i int) bool { return DONE(p, result[i]) })
+//@ ensures flights-kept: sameRef(p.flights, old(p.flights)) && len(p.flights) == old(len(p.flights)) && FLIGHTS(p)
+//@ ensures pending-only-shrinks: forallKey(p.flights, func(k postHandshakeFlightID) bool { return len(p.flights[k].PendingFragments) <= old(len(p.flights[k].PendingFragments)) })
+//@ loop #1: flights-kept: sameRef(p.flights, old(p.flights)) && len(p.flights) == old(len(p.flights)) && FLIGHTS(p)
+//@ loop #1: completed-done: completed != nil && forallKey(completed, func(id postHandshakeFlightID) bool { return DONE(p, id) })
+//@ loop #1: pending-only-shrinks: forallKey(p.flights, func(k postHandshakeFlightID) bool { return len(p.flights[k].PendingFragments) <= old(len(p.flights[k].PendingFragments)) })
+//@ loop #2: flights-kept: sameRef(p.flights, old(p.flights)) && len(p.flights) == old(len(p.flights)) && FLIGHTS(p) && flight != nil
+//@ loop #2: completed-done: completed != nil && forallKey(completed, func(id postHandshakeFlightID) bool { return DONE(p, id) })
+//@ loop #2: pending-only-shrinks: forallKey(p.flights, func(k postHandshakeFlightID) bool { return len(p.flights[k].PendingFragments) <= old(len(p.flights[k].PendingFragments)) })
+//@ loop #3: out-done: forall(0, len(out), func(i int) bool { return DONE(p, out[i]) })
+//@ loop #3: completed-done: forallKey(completed, func(id postHandshakeFlightID) bool { return DONE(p, id) })
 //@ end
